@@ -1,2 +1,11 @@
 import SparseSpace.Properties.C01
-#print axioms SparseSpace.C01.placeholder
+#print axioms SparseSpace.C01.inv_init
+#print axioms SparseSpace.C01.inv_update
+#print axioms SparseSpace.C01.inv_reachable
+#print axioms SparseSpace.C01.update_not_refinable
+#print axioms SparseSpace.C01.downward_closed
+#print axioms SparseSpace.C01.disjoint_and_no_forward
+#print axioms SparseSpace.C01.coeff_identity
+#print axioms SparseSpace.C01.coeff_support
+#print axioms SparseSpace.C01.coeff_total
+#print axioms SparseSpace.C01.reachable_scheme_valid
